@@ -138,10 +138,42 @@ def native_i386(ctx, py):
         pass
 
 
+def isa_baseline(ctx):
+    """every instruction of the x86-64 and i386 files must belong to the baseline instruction set of the CPU family the back end is selected for (ascon-select-backend.h selects
+    them on __x86_64__ / __i386__ alone, with no run-time dispatch): the assembler is told to accept nothing else (generic64: no BMI/AVX/ADX...; i386)"""
+    lib = build.build_lib("asm", opt="-O2")
+    out = os.path.join(build.BUILD, "tmp", "c18-isa-%d.o" % os.getpid())
+    os.makedirs(os.path.dirname(out), exist_ok=True)
+    n = 0
+    for f in ASM_FILES:
+        if "x86-64" in f:
+            flags, what = ["-Wa,-march=generic64"], "x86-64 baseline (generic64)"
+        elif "i386" in f:
+            flags, what = ["-m32", "-Wa,-march=i386"], "i386"
+        else:
+            continue
+        for variant in ([], ["-DASCON_MASKED_MAX_SHARES=2"], ["-DASCON_MASKED_MAX_SHARES=3"]) if "masking" in f else ([],):
+            p = subprocess.run(["gcc", "-c"] + flags + lib["inc"] + ["-DHAVE_CONFIG_H"] + variant + [os.path.join(build.REPO, "src", f), "-o", out], stdout=subprocess.PIPE, stderr=subprocess.STDOUT)
+            msg = p.stdout.decode("utf-8", "replace")
+            ctx.stat("evaluations")
+            if p.returncode != 0 and "-m32" in flags and ("not supported" not in msg and "Error:" not in msg):
+                continue      # no 32-bit preprocessing on this host
+            if p.returncode != 0:
+                ctx.fail("isa-baseline:%s" % os.path.basename(f), "uses instructions outside %s: %s" % (what, " | ".join(l.split(": ", 1)[-1] for l in msg.splitlines() if "Error:" in l)[:300] or msg[-300:]))
+            n += 1
+    try:
+        os.unlink(out)
+    except OSError:
+        pass
+    ctx.stats["isa_baseline_objects"] = n
+    ctx.sample("ISA baseline: %d assemblies of the x86-64 / i386 files with the assembler restricted to generic64 / i386" % n)
+
+
 def run(ctx):
     t = ctx.thorough
     generators(ctx)
     elf(ctx)
+    isa_baseline(ctx)
     entry_point_census(ctx)
     jobs = []
     for tr in (build.ALL_TRIPLES if t else [build.DEFAULT_TRIPLE, (2, 1, 2), (3, 3, 3)]):
@@ -171,6 +203,7 @@ def run(ctx):
         native_i386(ctx, py)
     ctx.assumptions += [
         "generator check: the generators are built and run from a scratch copy of tools/ and their output compared byte for byte with the 18 checked-in files",
+        "x86 instruction-set baseline: the back ends are selected on __x86_64__ / __i386__ alone, so every instruction must assemble under -march=generic64 / -march=i386 (what the emulators are for the other ISAs: an unknown instruction is an error)",
         "host ABI: System V x86-64 callee-saved set {rbx, rbp, r12-r15}, rsp, direction flag, no write above the return address; objects flush against PROT_NONE pages",
         "the i386 file is also run natively in 32-bit mode when the host allows it (evidence counter native_i386 = 1); if not, only the emulator speaks for it",
         "other ISAs are executed by text-level emulators of the instruction subsets these files use (a model of the ISA, not silicon); an ISA without a finished emulator is listed under not_emulated and nothing is claimed for it",
